@@ -22,7 +22,7 @@ ASSUMPTIONS = ["EXCHANGE_LIFETIME is the default 247 s of the incoming message's
                "copies coinciding (within 1e-9 s) with the empty-ACK timer, handler completion or the expiry timer "
                "are accepted either way"]
 EXPECTED_PROBES = ["transport_error_for_client", "dup_before_ack", "dup_after_empty_ack", "dup_after_piggyback", "dup_non", "dup_at_lifetime_minus",
-                   "dup_at_lifetime_plus", "same_mid_other_endpoint", "dup_same_instant", "same_mid_used_for_non_request_before"]
+                   "dup_at_lifetime_plus", "same_mid_other_endpoint", "dup_same_instant", "same_mid_used_for_non_request_before", "wall_clock_step"]
 
 LIFETIME = 247.0
 HANDLERS = ["fast", "slow", "raise", "slowraise"]
@@ -64,7 +64,13 @@ def gen(r, tier):
         for _ in range(r.randint(1, 2)):
             icmps.append({"t": round(r.uniform(0, 4), 4) if r.chance(0.7) else round(r.uniform(4, 260), 3),
                           "client": r.randrange(nclients)})
-    return {"nclients": nclients, "reqs": reqs, "icmps": icmps, "same_host": r.chance(0.3), "v4": r.chance(0.15)}
+    jumps = []
+    if r.chance(0.25):
+        # the host's wall clock is stepped (NTP, an operator, a VM resumed): EXCHANGE_LIFETIME is about elapsed time
+        for _ in range(r.randint(1, 2)):
+            jumps.append({"t": round(r.choice([r.uniform(0, 4), r.uniform(4, 250)]), 3),
+                          "by": r.choice([-3600.0, -300.0, -100.0, 100.0, 300.0, 3600.0, 86400.0])})
+    return {"nclients": nclients, "reqs": reqs, "icmps": icmps, "same_host": r.chance(0.3), "v4": r.chance(0.15), "jumps": jumps}
 
 
 def systematic(tier):
@@ -79,6 +85,11 @@ def systematic(tier):
                          "copies": [p]},
                         {"id": 1, "client": 1, "mid": 7, "con": con, "handler": h, "no_response": nr, "t": 0.01,
                          "copies": []}]})
+    for by in (-3600.0, -100.0, 300.0, 3600.0):
+        for p in (1.0, 200.0, LIFETIME - 1e-3, LIFETIME + 1e-3, 400.0):
+            for con in (True, False):
+                out.append({"nclients": 1, "reqs": [{"id": 0, "client": 0, "mid": 9, "con": con, "handler": HANDLERS[0], "no_response": None,
+                                                     "t": 0.0, "copies": [p]}], "jumps": [{"t": 0.5, "by": by}]})
     return out
 
 
@@ -188,6 +199,13 @@ def execute(sim, scn):
         if ic["client"] < len(clients):
             loop.at(ic["t"], sim.net.icmp, srv, clients[ic["client"]].addr, 111)
             sim.probe("transport_error_for_client")
+    for j in scn.get("jumps") or []:
+        def jump(j=j):
+            sim.probe("wall_clock_step")
+            sim.net.count("fault.clock_step")
+            sim.log("app", "wall-clock-step", j["by"])
+            sim.timeshim.offset += j["by"]
+        loop.at(j["t"], jump)
     if ndup:
         sim.extra_faults = {"dup": ndup}
     if any(len(v) > 1 for v in same_mid.values()):
